@@ -87,8 +87,14 @@ func (*Deb) ConventionalFileName(info *nfpm.Info) string {
 		version += "-" + info.Release
 	}
 
+	// the Architecture field of the control file carries the platform
+	arch := info.Arch
+	if info.Platform != "" && info.Platform != "linux" {
+		arch = info.Platform + "-" + arch
+	}
+
 	// package_version_architecture.package-type
-	return fmt.Sprintf("%s_%s_%s.deb", info.Name, version, info.Arch)
+	return fmt.Sprintf("%s_%s_%s.deb", info.Name, version, arch)
 }
 
 // ConventionalExtension returns the file name conventionally used for Deb packages
